@@ -105,8 +105,15 @@ func (r *TaskRunner) SetVariables(vars variables.Container) *TaskRunner {
 // Run run provided task -> highly modified from taskctl/runner/runner.go
 // TaskRunner first compiles task into linked list of Jobs, then passes those jobs to Executor
 func (r *TaskRunner) Run(t *task.Task) error {
-	// Keep track of running tasks for graceful shutdown and waiting until all tasks are canceled
+	// Keep track of running tasks for graceful shutdown and waiting until all tasks are canceled.
+	// The wait group must not be incremented concurrently with the Wait() in Cancel, so a canceled runner does not run tasks anymore.
+	r.cancelMutex.RLock()
+	if r.canceling {
+		r.cancelMutex.RUnlock()
+		return r.ctx.Err()
+	}
 	r.wg.Add(1)
+	r.cancelMutex.RUnlock()
 	defer r.wg.Done()
 
 	if err := r.ctx.Err(); err != nil {
